@@ -358,6 +358,10 @@ def leaf_stage(tier, rep):
     lines += [c * k + x for c in "`~" for k in range(1, 7) for x in ("", " js", "a`b", " ~", "`")]
     lines += [(" " * i) + m * k + t for i in range(0, 5) for m in "*-_" for k in range(1, 6) for t in ("", " ", " a", "\t" + m, " " + m + " " + m)]
     lines += [d + e + x for d in ("0", "1", "01", "123456789", "1234567890", "007") for e in ".)" for x in ("", " a", "\ta", "a", "  ")]
+    # Unicode look-alikes of the blanks, digits and markers: none of them is a marker or a blank for Markdown
+    base = [x for x in lines if 2 <= len(x) <= 4 and x.strip(" \t") and "\n" not in x]
+    lines += [t for t in gen.twins(gen.sample(base, 6000 if tier == "quick" else 60000, C.SEED + 41), C.SEED, per_doc=2)
+              if "\n" not in t and not any(ch in t for ch in "\u2028\u2029\x85\x0b\x0c\x1c\x1d\x1e")]
     jobs = [lines[i:i + 400] for i in range(0, len(lines), 400)]
     traces = C.pmap(leaf_record, jobs, chunk=4)
     verdicts, st = C.validate_traces("LeafBlocks", traces, shard=40, heap="4g")
